@@ -9,6 +9,7 @@ import GoZero.Extracted.C16
 import GoZero.C16.Model
 import GoZero.C16.ModelRW
 import GoZero.C16.ModelCache
+import GoZero.C16.ConcObjs
 set_option maxRecDepth 8000
 namespace GoZero.C16.Tie
 open GoZero.C16
@@ -76,6 +77,41 @@ theorem tie_rwUpdateTail (rw : RW) (now : Nat) (h : rw.lastTime ≤ now) (hs : r
   have e3 : ((now - (now - rw.lastTime) % rw.interval : Nat) : Int)
       = (now : Int) - (((now - rw.lastTime) % rw.interval : Nat) : Int) := by omega
   rw [e3]
+  norm_cast
+
+/-- `RollingWindow.span` with the clock *behind* `lastTime`: Go's truncating division gives 0 for less than one interval
+(span 0) and a negative quotient otherwise, which fails `0 <= offset`: span = size (`RW.spanB`) -/
+theorem tie_rwSpanBackwards (rw : RW) (now : Nat) (h : now < rw.lastTime) (hi : 0 < rw.interval) :
+    rwSpan rw.lastTime now rw.interval rw.size = (rw.spanB now : Int) := by
+  unfold rwSpan clockSince RW.spanB
+  simp only [h, if_true]
+  have e : ((now : Int) - (rw.lastTime : Int)) = -((rw.lastTime - now : Nat) : Int) := by omega
+  rw [e, Int.neg_tdiv]
+  have e2 : Int.tdiv ((rw.lastTime - now : Nat) : Int) (rw.interval : Int) = (((rw.lastTime - now) / rw.interval : Nat) : Int) := by
+    rw [Int.tdiv_eq_ediv_of_nonneg (by omega)]; norm_cast
+  rw [e2]
+  by_cases hlt : rw.lastTime - now < rw.interval
+  · have : (rw.lastTime - now) / rw.interval = 0 := Nat.div_eq_of_lt hlt
+    rw [this]
+    by_cases hz : (0 : Int) < (rw.size : Int)
+    · simp [hlt]
+    · have : rw.size = 0 := by omega
+      simp [hlt, this]
+  · have hq : 1 ≤ (rw.lastTime - now) / rw.interval := (Nat.one_le_div_iff hi).2 (by omega)
+    generalize (rw.lastTime - now) / rw.interval = q at hq ⊢
+    simp [hlt]
+    intro h0; omega
+
+/-- the tail of `updateOffset` with the clock behind `lastTime`: Go's `%` keeps the sign of the dividend, so `lastTime`
+is re-aligned on its old grid at or after `now` (`RW.updateOffsetB`) -/
+theorem tie_rwUpdateTailBackwards (rw : RW) (now : Nat) (h : now < rw.lastTime) (hs : rw.spanB now ≠ 0) (hi : 0 < rw.interval) :
+    rwUpdateTail rw.offset (rw.spanB now) rw.size now rw.lastTime rw.interval
+      = [("offset", ((rw.updateOffsetB now).offset : Int)), ("lastTime", ((rw.updateOffsetB now).lastTime : Int))] := by
+  simp only [rwUpdateTail, clockNow, RW.updateOffsetB, hs, if_false, h, if_true]
+  have e : ((now : Int) - (rw.lastTime : Int)) = -((rw.lastTime - now : Nat) : Int) := by omega
+  rw [e, Int.neg_tmod, Int.tmod_eq_emod_of_nonneg (by omega), Int.tmod_eq_emod_of_nonneg (by omega)]
+  norm_cast
+  simp only [Int.sub_neg]
   norm_cast
 
 /-! ### statements of the transcribed functions -/
@@ -380,5 +416,85 @@ theorem tie_cacheWheel : cacheWheel = [
     "return",
     "}",
     "cache.Del(key)"] := by decide
+
+/-! ### lock frames: what the interleaving models (Conc.lean, ConcObjs.lean, ConcTake.lean) assume about locking
+
+`body` stands for the statements executed while the lock is held (pinned by the statement lists above); a statement
+outside the locked region appears verbatim and must not touch shared state. -/
+
+/-- Queue: Put / Take / Empty hold the exclusive lock over their whole body (`CQueue.obj.isRead = false`) -/
+theorem tie_queueLocks :
+    queuePutLocks = ["q.lock.Lock()", "defer q.lock.Unlock()", "body"]
+    ∧ queueTakeLocks = ["q.lock.Lock()", "defer q.lock.Unlock()", "body"]
+    ∧ queueEmptyLocks = ["q.lock.Lock()", "body", "q.lock.Unlock()", "return empty"] := by decide
+
+/-- Ring: Add under the write lock, Take (the whole copy loop) under the read lock (`CRing.obj.isRead`) -/
+theorem tie_ringLocks :
+    ringAddLocks = ["r.lock.Lock()", "defer r.lock.Unlock()", "body"]
+    ∧ ringTakeLocks = ["r.lock.RLock()", "defer r.lock.RUnlock()", "body"] := by decide
+
+/-- SafeMap: Set / Del (including both migrations) under the write lock; Get / Size / Range (including the callback
+calls) under the read lock (`CMap.isRead`) -/
+theorem tie_safeMapLocks :
+    safeMapSetLocks = ["m.lock.Lock()", "defer m.lock.Unlock()", "body"]
+    ∧ safeMapDelLocks = ["m.lock.Lock()", "defer m.lock.Unlock()", "body"]
+    ∧ safeMapGetLocks = ["m.lock.RLock()", "defer m.lock.RUnlock()", "body"]
+    ∧ safeMapSizeLocks = ["m.lock.RLock()", "body", "m.lock.RUnlock()", "return size"]
+    ∧ safeMapRangeLocks = ["m.lock.RLock()", "defer m.lock.RUnlock()", "body"] := by decide
+
+/-- the model's read operations are exactly the methods that take `RLock` -/
+theorem tie_readOps :
+    (CMap.isRead (.get 0), CMap.isRead .size, CMap.isRead .range, CMap.isRead (.set 0 0), CMap.isRead (.del 0))
+      = (true, true, true, false, false)
+    ∧ (CRing.obj.isRead .take, CRing.obj.isRead (.add 0)) = (true, false)
+    ∧ (CQueue.obj.isRead .take, CQueue.obj.isRead (.put 0), CQueue.obj.isRead .empty) = (false, false, false) := by decide
+
+/-- Cache: `doGet` (lookup + recency touch) and the map writes of `Del` / `SetWithExpire` are single critical sections
+of `c.lock` (one atomic step each in `CT.step`); the timer calls come after the unlock -/
+theorem tie_cacheLocks :
+    cacheDoGetLocks = ["c.lock.Lock()", "defer c.lock.Unlock()", "body"]
+    ∧ cacheDelLocks = ["c.lock.Lock()", "body", "c.lock.Unlock()", "c.timingWheel.RemoveTimer(key)"]
+    ∧ cacheSetLocks = ["c.lock.Lock()", "body", "c.lock.Unlock()", "expiry := c.unstableExpiry.AroundDuration(expire)",
+                       "c.timingWheel.SetTimer(key, value, expiry)"]
+    ∧ cacheSizeLocks = ["c.lock.Lock()", "defer c.lock.Unlock()", "body"] := by decide
+
+/-! ### statistics and the rejected timer -/
+
+/-- `Get`: exactly one of hit / miss per call (the driver's hit/miss accounting) -/
+theorem tie_cacheGetStatStmts : cacheGetStatStmts = [
+    "value, ok := c.doGet(key)",
+    "if ok {",
+    "c.stats.IncrementHit()",
+    "}",
+    "else {",
+    "c.stats.IncrementMiss()",
+    "}",
+    "return value, ok"] := by decide
+
+/-- `Take`: found at once = hit; loaded by this call (`fresh`) = miss; result shared through the barrier (or found by
+the re-check) = hit; error = neither -/
+theorem tie_cacheTakeStatStmts : cacheTakeStatStmts = [
+    "if val, ok := c.doGet(key); ok {",
+    "c.stats.IncrementHit()",
+    "return val, nil",
+    "}",
+    "var fresh bool",
+    "val, err := c.barrier.Do(key, func() (any, error) { if val, ok := c.doGet(key); ok { return val, nil } v, e := fetch() if e != nil { return nil, e } fresh = true c.Set(key, v) return v, nil })",
+    "if err != nil {",
+    "return nil, err",
+    "}",
+    "if fresh {",
+    "c.stats.IncrementMiss()",
+    "return val, nil",
+    "}",
+    "c.stats.IncrementHit()",
+    "return val, nil"] := by decide
+
+/-- `SetTimer` rejects a delay ≤ 0 before anything is sent to the wheel (`CacheG.setNoTimer`: no timer operation) -/
+theorem tie_wheelSetTimerStmts : wheelSetTimerStmts = [
+    "if delay <= 0 || key == nil {",
+    "return ErrArgument",
+    "}",
+    "select { case tw.setChannel <- timingEntry{ baseEntry: baseEntry{ delay: delay, key: key, }, value: value, }: return nil case <-tw.stopChannel: return ErrClosed }"] := by decide
 
 end GoZero.C16.Tie
